@@ -230,6 +230,11 @@ func (e *FEnc) instr(st *State, b *ssa.BasicBlock, idx int, in ssa.Instruction) 
 		ln := e.term(e.valOf(x.Len))
 		cp := e.term(e.valOf(x.Cap))
 		e.safetyOb(st, "make", in, "make("+x.Len.Name()+")", fmt.Sprintf("(and (<= 0 %s) (<= %s %s))", ln, ln, cp))
+		if _, isConst := x.Cap.(*ssa.Const); !isConst {
+			// C20: no allocation sized by a number the function cannot bound. Lengths of objects already in memory are
+			// at most memLenBound (2^40, a standing assumption); a new object may be 16 times that.
+			e.safetyOb(st, "alloc", in, "make("+x.Cap.Name()+")", fmt.Sprintf("(<= %s 17592186044416)", cp))
+		}
 		e.atCallBuiltin(st, in, "builtin.make", []*Val{e.valOf(x.Len), e.valOf(x.Cap)})
 		elem := x.Type().Underlying().(*types.Slice).Elem()
 		base := e.fresh("mk", "Ref")
